@@ -185,7 +185,7 @@ func History1() *Obs {
 		provs = append(provs, a)
 	}
 	var cons []sigs.Account
-	for i := 0; i < 3; i++ {
+	for i := 0; i < 5; i++ {
 		a, _ := w.AddAccount(common.CONSUMER, i, 1000000000)
 		cons = append(cons, a)
 	}
@@ -196,6 +196,10 @@ func History1() *Obs {
 		pol(3, 3, AL, nil, A, req(collJA, false, "ext1"), req(collRA, false)),
 		pol(4, 3, AL, nil, A, req(collJA, true, "ext1", "ext2"), req(collRA, true, "ext2")),
 		pol(3, 3, M, []string{a(0), a(1), a(4)}, A),
+		// the same add-on / the same extension required as MIXED on both api interfaces, with more eligible providers
+		// than slots: each mixed requirement owns pairing slots by its position in the filter list
+		pol(3, 3, AL, nil, A, req(collJA, true), req(collRA, true)),
+		pol(4, 3, AL, nil, A, req(collJ, true, "ext1"), req(collR, true, "ext1"), req(collRA, true, "ext2")),
 	}
 	for i, p := range plans {
 		plan := common.CreateMockPlan()
@@ -314,6 +318,60 @@ func History1() *Obs {
 	return o
 }
 
+// History2: the same extension required as MIXED on both api interfaces, providers that serve it on one interface
+// only (disjoint populations, equal stakes), more eligible providers than slots: which slot is reserved for which
+// interface's requirement is decided by the position of the requirement's sub filter in the mix filter list.
+func History2() *Obs {
+	o := &Obs{}
+	w := chain.NewWorld()
+	w.SetEpochParams(4, 3)
+	w.AddValidator(0, 1000000)
+	const A = "spa"
+	tx(o, "specA", w.AddSpecGov(specTwoInterfaces(A)))
+	J, R := spectypes.APIInterfaceJsonRPC, spectypes.APIInterfaceRest
+	var provs []sigs.Account
+	for i := 0; i < 9; i++ {
+		a, _ := w.AddAccount(common.PROVIDER, i, 100000000)
+		provs = append(provs, a)
+		var eps []epochstoragetypes.Endpoint
+		switch i % 3 {
+		case 0: // extension (and add-on) on jsonrpc only
+			eps = append(endpoints(1, []string{J}, []string{"addon1"}, []string{"ext1"}), endpoints(1, []string{R}, nil, nil)...)
+		case 1: // on rest only
+			eps = append(endpoints(1, []string{R}, []string{"addon1"}, []string{"ext1"}), endpoints(1, []string{J}, nil, nil)...)
+		default: // neither
+			eps = endpoints(1, []string{J, R}, nil, nil)
+		}
+		tx(o, "stake", w.Stake(a, A, 5000, 1, eps, 10))
+	}
+	AL := planstypes.SELECTED_PROVIDERS_MODE_ALLOWED
+	plans := []*planstypes.Policy{
+		pol(6, 1, AL, nil, A, req(collJ, true, "ext1"), req(collR, true, "ext1")),
+		pol(4, 1, AL, nil, A, req(collJ, true, "ext1"), req(collR, true, "ext1")),
+		pol(7, 1, AL, nil, A, req(collJA, true, "ext1"), req(collRA, true, "ext1")),
+		pol(5, 1, AL, nil, A, req(collRA, true, "ext1"), req(collJA, true, "ext1"), req(collJ, true, "ext2")),
+	}
+	var cons []sigs.Account
+	for i, p := range plans {
+		plan := common.CreateMockPlan()
+		plan.Index = fmt.Sprintf("mixplan%d", i)
+		plan.PlanPolicy = *p
+		tx(o, "plan", w.AddPlanGov(false, plan))
+		c, _ := w.AddAccount(common.CONSUMER, i, 1000000000)
+		cons = append(cons, c)
+	}
+	next(o, w, chain.BlockDt, "staked")
+	for i, c := range cons {
+		tx(o, "buy", w.Buy(c, c, fmt.Sprintf("mixplan%d", i), 1, false, false))
+	}
+	nextEpoch(o, w)
+	for e := 0; e < 8; e++ {
+		nextEpoch(o, w)
+		queryPairings(o, w, A, cons, provs)
+	}
+	return o
+}
+
 // HistoryC02 re-runs a slice of the C02 configuration enumeration and records every pairing list.
 func HistoryC02(step, offset int) *Obs {
 	o := &Obs{}
@@ -340,6 +398,7 @@ func HistoryC02(step, offset int) *Obs {
 // Histories by name.
 var Histories = map[string]func() *Obs{
 	"H1":    History1,
+	"H2":    History2,
 	"C02/a": func() *Obs { return HistoryC02(66, 0) },
 	"C02/b": func() *Obs { return HistoryC02(66, 33) },
 }
